@@ -68,6 +68,10 @@ pub trait UserInteractionsModule:
 
         let caller = self.blockchain().get_caller();
         require!(!self.has_user_claimed(&caller), "Already claimed");
+        require!(
+            !self.is_user_blacklisted(&caller),
+            "You have been put into the blacklist and may not claim"
+        );
 
         let ticket_range = self.try_get_ticket_range(&caller);
         let nr_confirmed_tickets = self.nr_confirmed_tickets(&caller).get();
